@@ -17,6 +17,8 @@ the best chain from the grow/reorg ops and the caller's current block from the c
   reorg-during-catchup      connected non-child from a catch-up step, label catchup (F13)
   reorg-unread-at-catchup   connected non-child from a catch-up step, label unread (it was current, but entered the
                             catch-up arm before reading the disconnects)
+  disconnect-not-reported   the rescan consumed (current arm) the Disconnected naming the caller's current block and delivered
+                            no disconnected callback for it (Spec.Rescan `discReported`; never a recorded shape)
   disconnect-not-current    a disconnected callback that does not name the caller's current block (never a recorded shape)
   walk                      anything else
 -/
@@ -191,6 +193,12 @@ def runCase : CaseFn := fun c => Id.run do
             | none =>
               if p != "HANG" then
                 out := out.push s!"DIFF C09 case {c.num} line {ln}: unparsable callback <{p}>"
+          match ev with
+          | .disconnected b _ =>
+            let cbs := items.filterMap fun o => match o with | .cb c => some c | _ => none
+            if arm == "current" && !discReported caller.cur b cbs then
+              out := out.push s!"ORACLE-FAIL C09 case {c.num} line {ln}: shape=disconnect-not-reported the rescan consumed the Disconnected notification for {b}, the block the caller was last told is current, and delivered no disconnected callback for it (callbacks: {obs})"
+          | _ => pure ()
           for o in items do
             let (c', wok, mok) := caller.step W o
             match o with
